@@ -191,7 +191,8 @@ impl Inner {
         let xfr_type = match resp.qtype() {
             Some(Rtype::AXFR) => XfrType::Axfr,
             Some(Rtype::IXFR) => XfrType::Ixfr,
-            _ => unreachable!(),
+            // Whatever this responds to, it wasn't a zone transfer request.
+            _ => return Err(Error::NotValidXfrResponse),
         };
 
         let Some(Ok(record)) = records.next() else {
